@@ -16,10 +16,11 @@ type Emit func(ev map[string]interface{})
 
 // Arrival is one request the upstream read.
 type Arrival struct {
-	Tok  string
-	UID  uint32
-	Beh  string
-	Conn *UpConn
+	Tok     string
+	UID     uint32
+	Beh     string
+	Conn    *UpConn
+	Attempt int // 0-based: how many times the request carrying Tok had arrived before (retries of the proxy)
 }
 
 // UpConn is one connection the proxy opened to the upstream.
@@ -92,6 +93,9 @@ func (u *Up) serve(uc *UpConn) {
 		}
 		a := &Arrival{Tok: string(f.Content), UID: f.ID, Beh: f.Get("beh"), Conn: uc}
 		u.mu.Lock()
+		if prev := u.arr[a.Tok]; prev != nil {
+			a.Attempt = prev.Attempt + 1
+		}
 		u.arr[a.Tok] = a
 		if a.UID > u.MaxUID {
 			u.MaxUID = a.UID
@@ -102,8 +106,18 @@ func (u *Up) serve(uc *UpConn) {
 		if f.Type == 2 {
 			continue
 		}
+		beh := a.Beh
+		if strings.HasPrefix(beh, "err") { // errok:<micros> | errhold: the first attempt gets an error answer with a body
+			if a.Attempt == 0 {
+				go u.ReplyError(a.Conn, a.UID, ErrTok(a.Tok, 0), a.Tok)
+				continue
+			}
+			beh = beh[3:]
+		}
 		switch {
-		case strings.HasPrefix(a.Beh, "ok:"), strings.HasPrefix(a.Beh, "dup:"):
+		case strings.HasPrefix(beh, "ok:"), strings.HasPrefix(beh, "dup:"):
+			a := *a
+			a.Beh = beh
 			i := strings.Index(a.Beh, ":")
 			us, _ := strconv.Atoi(a.Beh[i+1:])
 			n := 1
@@ -155,6 +169,45 @@ func (u *Up) Reply(uc *UpConn, uid uint32, tok, kind string) bool {
 	_, err := uc.c.Write(f.Encode())
 	uc.wmu.Unlock()
 	return err == nil
+}
+
+// ErrTok is the token an error answer to attempt n of the request carrying tok has in its header and body.
+func ErrTok(tok string, attempt int) string { return "ERR-" + tok + "-a" + strconv.Itoa(attempt) }
+
+// ReplyError writes an error answer (bolt status 2, which the proxy maps to 500) with etok in header and body for the
+// request carrying forTok. usend{kind: err} is emitted before the bytes are written.
+func (u *Up) ReplyError(uc *UpConn, uid uint32, etok, forTok string) bool {
+	if uc == nil {
+		return false
+	}
+	uc.wmu.Lock()
+	defer uc.wmu.Unlock()
+	if uc.closed {
+		return false
+	}
+	u.emit(map[string]interface{}{"ev": "usend", "tok": etok, "uid": uid, "kind": "err", "for": forTok})
+	f := &Frame{Type: 0, Cmd: 2, ID: uid, Status: 2, Class: "com.alipay.sofa.rpc.core.response.SofaResponse",
+		Header: [][2]string{{"token", etok}}, Content: []byte(etok)}
+	uc.c.SetWriteDeadline(time.Now().Add(10 * time.Second))
+	_, err := uc.c.Write(f.Encode())
+	return err == nil
+}
+
+// WaitAttempt waits until attempt n (0-based) of the request carrying tok was read, or stop() reports true, or d elapsed.
+func (u *Up) WaitAttempt(tok string, n int, d time.Duration, stop func() bool) *Arrival {
+	deadline := time.Now().Add(d)
+	for {
+		u.mu.Lock()
+		a := u.arr[tok]
+		u.mu.Unlock()
+		if a != nil && a.Attempt >= n {
+			return a
+		}
+		if (stop != nil && stop()) || time.Now().After(deadline) {
+			return nil
+		}
+		time.Sleep(time.Millisecond)
+	}
 }
 
 // WaitArrival waits until the request carrying tok was read, or stop() reports true, or d elapsed.
